@@ -63,9 +63,14 @@ Definition oentry_eqb (a b : oentry) : bool :=
   | _, _ => false
   end.
 
+(* Which of the repairs of notes/C36_fix.md the code under test contains (see model/Nhcb.v, [cfg]).
+   Both are committed in /repo (e91d1efff6, 1485e993ee). *)
+Definition code_ts_fixed : bool := true.
+Definition code_keepex_fixed : bool := true.
+
 (* ---- agree ----------------------------------------------------------------------------------- *)
 Definition agree (c : case) : bool :=
-  let '(out, oom) := run (parse_of (c_letab c)) (mkCfg (c_keep c) (c_pst c) (c_partial c)) (c_base c) (c_eof c) in
+  let '(out, oom) := run (parse_of (c_letab c)) (mkCfg (c_keep c) (c_pst c) (c_partial c) code_ts_fixed code_keepex_fixed) (c_base c) (c_eof c) in
   negb oom && Bool.eqb (c_eof c) (c_oeof c) && list_eqb oentry_eqb out (c_out c).
 
 (* ---- holds: the property on the two observed streams --------------------------------------- *)
